@@ -3,6 +3,7 @@ import Abmarl.Props.Examples
 import Abmarl.Props.Corridor
 import Abmarl.Props.MultiGrid
 import Abmarl.Props.Reach
+import Abmarl.Props.Broadcast
 #print axioms Abmarl.C03_reachable
 #print axioms Abmarl.C03_every_step
 #print axioms Abmarl.C03_hist
@@ -61,3 +62,5 @@ import Abmarl.Props.Reach
 #print axioms Abmarl.RT.hitStep_weak
 #print axioms Abmarl.RT.weak_remove
 #print axioms Abmarl.RT.weak_setSt
+#print axioms Abmarl.broadcast_reachable_inv
+#print axioms Abmarl.broadcast_messages_in_unit
